@@ -1,3 +1,4 @@
+from io import TextIOWrapper
 from xz import open as xzopen
 
 
@@ -8,5 +9,6 @@ class XzFileLineReader(object):
 
     def read_lines(self):
         with xzopen(self._xz_file, "r") as in_stream:
-            for a_line in in_stream:
-                yield a_line.decode("utf-8")
+            # decoded as text so that lines end where they do in an uncompressed file ('\n', '\r\n' or '\r')
+            for a_line in TextIOWrapper(in_stream, encoding="utf-8"):
+                yield a_line
